@@ -172,6 +172,31 @@ def native_replay(rep):
     import os, sys
     sys.path.insert(0, os.path.dirname(os.path.dirname(os.path.abspath(__file__))))
     from native import c06_bounded
+    if rep.get("target", "").endswith(".update_reliability"):
+        # reliability bookkeeping on a three-voter colony: every named voter x outcome x prior counts, the whole electorate compared before and after
+        from operon_ai.topology.quorum import QuorumSensing
+        from operon_ai.state.metabolism import ATP_Store
+        k = 0
+        for tracking in (True, False):
+            for cast, correct in ((0, 0), (1, 0), (2, 1), (4, 4)):
+                for who in (0, 1, 2, None):
+                    for was_correct in (True, False):
+                        k += 1
+                        q = QuorumSensing(n_agents=3, budget=ATP_Store(budget=100, silent=True), silent=True, enable_reliability_tracking=tracking)
+                        for i, p_ in enumerate(q.colony):
+                            p_.votes_cast, p_.correct_votes, p_.weight, p_.reliability_score = cast, correct, 1.0 + i, 0.5
+                        before = [(p_.agent.name, p_.weight, p_.reliability_score, p_.votes_cast, p_.correct_votes) for p_ in q.colony]
+                        name = q.colony[who].agent.name if who is not None else "nobody"
+                        q.update_reliability(name, was_correct)
+                        after = [(p_.agent.name, p_.weight, p_.reliability_score, p_.votes_cast, p_.correct_votes) for p_ in q.colony]
+                        exp = list(before)
+                        if tracking and who is not None:
+                            c2 = correct + (1 if was_correct else 0)
+                            exp[who] = (name, before[who][1], (c2 / cast) if cast > 0 else 0.5, cast, c2)
+                        if after != exp:
+                            return {"confirmed": True, "found_by": f"reliability updates on a three-voter colony ({k} cases)",
+                                    "observed": f"update_reliability({name!r}, {was_correct}) with tracking={tracking}, prior counts cast={cast} correct={correct}: "
+                                                f"{before} -> {after}, expected {exp}"}
     if rep.get("target", "").endswith("_protein_to_vote"):
         # the ballot conversion: every stated confidence (incl. 0) and every action type, through the real run_vote of a one-voter colony
         import io, contextlib
@@ -218,3 +243,18 @@ contract(F + "::EmergencyQuorum.__init__", "C06", is_init=True, params={"budget"
          loops={"for i in range(n_agents)": {"invariant": ["len(self.colony) == _k"], "modifies": ["self.colony"], "types": {"self.colony": "list:obj:AgentProfile"}}},
          requires=["n_agents >= 0"],
          ensures={"emergency-configuration": "self.strategy == VotingStrategy.THRESHOLD and self.custom_threshold == emergency_threshold and self.min_voters == 1"})
+
+# reliability bookkeeping (a voter's effective weight is weight * reliability_score): only the named voter's score moves, it is recomputed from that
+# voter's own counts, configured weights and the electorate are left alone, and with tracking switched off nothing moves at all
+contract(T + ".update_reliability", "C06", params={"agent_name": "str", "was_correct": "bool"}, raises=[],
+         loops={"for profile in self.colony": {"invariant": ["len(self.colony) == len(old(self).colony)"],
+                                               "step": {"only-the-named-voter-is-rescored":
+                                                        "(_exit == 'break') == (profile.agent.name == agent_name) and profile.weight == at_head(profile).weight and "
+                                                        "implies(profile.agent.name != agent_name, profile.reliability_score == at_head(profile).reliability_score "
+                                                        "and profile.correct_votes == at_head(profile).correct_votes) and "
+                                                        "implies(profile.agent.name == agent_name and profile.votes_cast > 0, "
+                                                        "profile.reliability_score * profile.votes_cast == profile.correct_votes) and "
+                                                        "profile.votes_cast == at_head(profile).votes_cast and "
+                                                        "implies(profile.agent.name == agent_name, profile.correct_votes == at_head(profile).correct_votes + (1 if was_correct else 0))"},
+                                               "property_level": ["only-the-named-voter-is-rescored"]}},
+         ensures={"electorate-unchanged": "len(self.colony) == len(old(self).colony)"})
